@@ -9,6 +9,15 @@
 
 #include "ezc3d.h"
 
+// Recording hooks of the verification harness: compiled only with -DMELUND_EZC3D_VERIF (hooks.h is found through the harness'
+// include path), inert unless the environment variable EZC3D_VERIF_TRACE names a file. Without the define nothing is added.
+#ifdef MELUND_EZC3D_VERIF
+#include "hooks.h"
+#else
+#define VERIF_SCOPE(args)
+#define VERIF_EVENT(what, path)
+#endif
+
 void ezc3d::removeTrailingSpaces(std::string& s){
     // Remove the spaces at the end of the strings
     for (int i = static_cast<int>(s.size()); i >= 0; --i)
@@ -33,6 +42,7 @@ ezc3d::c3d::c3d():
     _header = std::shared_ptr<ezc3d::Header>(new ezc3d::Header());
     _parameters = std::shared_ptr<ezc3d::ParametersNS::Parameters>(new ezc3d::ParametersNS::Parameters());
     _data = std::shared_ptr<ezc3d::DataNS::Data>(new ezc3d::DataNS::Data());
+    VERIF_EVENT("New", "");
 }
 
 ezc3d::c3d::c3d(const std::string &filePath):
@@ -56,10 +66,12 @@ ezc3d::c3d::c3d(const std::string &filePath):
 
     // Close the file
     close();
+    VERIF_EVENT("Load", filePath);
 }
 
 ezc3d::c3d::~c3d()
 {
+    VERIF_EVENT("Destroy", "");
     delete[] c_float;
 }
 
@@ -114,6 +126,7 @@ static void checkFitsInC3dFormat(const ezc3d::c3d& c3d)
 
 void ezc3d::c3d::write(const std::string& filePath) const
 {
+    VERIF_SCOPE(J::obj().set("op", "Save").set("path", filePath));
     checkFitsInC3dFormat(*this);
 
     std::fstream f(filePath, std::ios::out | std::ios::binary);
@@ -323,6 +336,7 @@ const ezc3d::DataNS::Data& ezc3d::c3d::data() const
 
 void ezc3d::c3d::parameter(const std::string &groupName, const ezc3d::ParametersNS::GroupNS::Parameter &p)
 {
+    VERIF_SCOPE(J::obj().set("op", "SetParam").set("g", verif::codes(groupName)).set("p", verif::paramArg(p)));
     if (!p.name().compare("")){
         throw std::invalid_argument("Parameter must have a name");
     }
@@ -347,16 +361,19 @@ void ezc3d::c3d::parameter(const std::string &groupName, const ezc3d::Parameters
 
 void ezc3d::c3d::lockGroup(const std::string &groupName)
 {
+    VERIF_SCOPE(J::obj().set("op", "LockGroup").set("g", verif::codes(groupName)));
     _parameters->group_nonConst(groupName).lock();
 }
 
 void ezc3d::c3d::unlockGroup(const std::string &groupName)
 {
+    VERIF_SCOPE(J::obj().set("op", "UnlockGroup").set("g", verif::codes(groupName)));
     _parameters->group_nonConst(groupName).unlock();
 }
 
 void ezc3d::c3d::frame(const ezc3d::DataNS::Frame &f, size_t idx)
 {
+    VERIF_SCOPE(J::obj().set("op", "AddFrame").set("idx", verif::sz(idx)).set("frame", verif::frame(f)));
     // Make sure f.points().points() is the same as data.f[ANY].points()
     size_t nPoints(static_cast<size_t>(parameters().group("POINT").parameter("USED").valuesAsInt()[0]));
     if (nPoints != 0 && f.points().nbPoints() != nPoints)
@@ -394,6 +411,7 @@ void ezc3d::c3d::frame(const ezc3d::DataNS::Frame &f, size_t idx)
 }
 
 void ezc3d::c3d::point(const std::string &name){
+    VERIF_SCOPE(J::obj().set("op", "DeclPoint").set("n", verif::codes(name)));
     if (data().nbFrames() > 0){
         std::vector<ezc3d::DataNS::Frame> dummy_frames;
         ezc3d::DataNS::Points3dNS::Points dummy_pts;
@@ -415,6 +433,7 @@ void ezc3d::c3d::point(const std::string &name){
 
 void ezc3d::c3d::point(const std::vector<ezc3d::DataNS::Frame>& frames)
 {
+    VERIF_SCOPE(J::obj().set("op", "AddPointCols").set("frames", verif::framesArg(frames)));
     if (frames.size() == 0 || frames.size() != data().nbFrames())
         throw std::invalid_argument("Size of the array of frames must equal the number of frames already "
                                     "present in the data set");
@@ -441,6 +460,7 @@ void ezc3d::c3d::point(const std::vector<ezc3d::DataNS::Frame>& frames)
 
 void ezc3d::c3d::analog(const std::string &name)
 {
+    VERIF_SCOPE(J::obj().set("op", "DeclAnalog").set("n", verif::codes(name)));
     if (data().nbFrames() > 0){
         std::vector<ezc3d::DataNS::Frame> dummy_frames;
         ezc3d::DataNS::AnalogsNS::SubFrame dummy_subframes;
@@ -464,6 +484,7 @@ void ezc3d::c3d::analog(const std::string &name)
 
 void ezc3d::c3d::analog(const std::vector<ezc3d::DataNS::Frame> &frames)
 {
+    VERIF_SCOPE(J::obj().set("op", "AddAnalogCols").set("frames", verif::framesArg(frames)));
     if (frames.size() == 0 || frames.size() != data().nbFrames())
         throw std::invalid_argument("Size of the array of frames must equal the number of frames already "
                                     "present in the data set");
